@@ -20,6 +20,7 @@ RULE = (
     'T.T denotes the numpy matrix; <op x, y> == <x, T y> on integer vectors; the generic TransposeOperator(op) '
     '(jax.linear_transpose) denotes the same matrix as the hand-written transpose; operators declared symmetric '
     'return themselves. non-trivial = the matrix is not symmetric and (non-square or >= 2 leaves).'
+    ' Also: sums/products of einsum-block operators sharing their block subscripts in different roles (transposed one after the other); complex coefficients on complex data (the transpose does not conjugate); block operators with 9-17 blocks.'
 )
 ASSUMPTIONS = [
     'transposes of the iterative-solver inverse are excluded (the property excludes them): no lazy CG inverse is generated',
